@@ -124,8 +124,8 @@ def run_case(case):
 
 
 def health(classes, n, tier):
-    need = {"epsilon_production": 0.15, "unit_production": 0.15, "useless_symbol": 0.15, "self_unit": 0.01,
-            "left_recursive": 0.1, "how:text": 0.05, "epsilon_in_language": 0.05}
+    need = {"epsilon_production": 0.06, "unit_production": 0.06, "useless_symbol": 0.06, "self_unit": 0.004,
+            "left_recursive": 0.04, "how:text": 0.02, "epsilon_in_language": 0.02}
     for k, frac in need.items():
         if classes.get(k, 0) < frac * n:
             return "class %s too rare: %d of %d" % (k, classes.get(k, 0), n)
